@@ -73,6 +73,13 @@ func (fr *Frame) nativeModel(name string, callee *ssa.Function, c *ssa.CallCommo
 			eq(r, ite(lt(d, ml), ite(lt(ai(d), bi(d)), "(- 1)", "1"), ite(lt(a.Len, b.Len), "(- 1)", ite(lt(b.Len, a.Len), "1", "0"))))))
 		vc.note("library model: bytes.Compare is lexicographic byte order")
 		return Scalar{r, "Int"}, true
+	case "errors.New", "fmt.Errorf":
+		e := vc.fresh("newerr", "Int")
+		vc.assert(lt("0", e))
+		for _, o := range vc.errGlobals {
+			vc.assert(not(eq(e, o)))
+		}
+		return Scalar{e, "Int"}, true
 	case "time.Now":
 		vc.note("A-CLOCK: time.Now returns an arbitrary value")
 		return vc.freshVal("now", callee.Signature.Results().At(0).Type()), true
@@ -93,8 +100,8 @@ func (fr *Frame) nativeModel(name string, callee *ssa.Function, c *ssa.CallCommo
 }
 
 func isLogLike(name string) bool {
-	for _, p := range []string{repoModule + "/fw/core.Log", "(*" + repoModule + "/std/log.", repoModule + "/std/log.", "fmt.Sprintf", "fmt.Sprint", "fmt.Errorf", "fmt.Print", "fmt.Fprint", "log.", "(*log.",
-		"errors.New", "strconv.Itoa", "strconv.FormatUint", "strconv.FormatInt"} {
+	for _, p := range []string{repoModule + "/fw/core.Log", "(*" + repoModule + "/std/log.", repoModule + "/std/log.", "fmt.Sprintf", "fmt.Sprint", "fmt.Print", "fmt.Fprint", "log.", "(*log.",
+		"strconv.Itoa", "strconv.FormatUint", "strconv.FormatInt"} {
 		if strings.HasPrefix(name, p) {
 			return true
 		}
